@@ -254,4 +254,8 @@ CART_BASENAMES = ('cart', 'demo-0.1', 'jelpi.v2', 'hero.sprites', 'my game', 'UP
 def cart_basename(i):
     """File base names that are legal but not plain: extra dots, digits, spaces, text that looks like an extension, a leading dot,
     non-ASCII characters.  The extension proper is appended by the caller."""
-    return CART_BASENAMES[i % len(CART_BASENAMES)]
+    import sys
+    name = CART_BASENAMES[i % len(CART_BASENAMES)]
+    if not name.isascii() and sys.getfilesystemencoding().lower().replace('-', '') != 'utf8':
+        return 'name'      # (where file names are ASCII, so are these)
+    return name
